@@ -657,21 +657,147 @@ theorem processRoots_single (prog : Program) (c : CellId) (s : St) :
 
 /-! ### the files -/
 
+/-! ### run B keeps its builtins (needed when the selector calls them) -/
+
+theorem withSel_ok (prog : Program) (T : SelTok) (E : Expr) (hwf : prog.wfB = true) (hok : okProg prog = true)
+    (hwfE : E.wfB = true) (hokE : okE E = true) (hT : isB T.dtok.text = false) :
+    (withSel prog T E).wfB = true ∧ okProg (withSel prog T E) = true ∧
+      (ruleBody T E).wfB = true ∧ okS (ruleBody T E) = true := by
+  have hb : (ruleBody T E).wfB = true := by
+    simp [ruleBody, Stmt.wfB, wfSs, Expr.wfB, Expr.nodeOK, T.he, Parser.assignable, Parser.isCompound, hwfE]
+  have hob : okS (ruleBody T E) = true := by
+    simp [ruleBody, okS, okSs, okE, hT, hokE]
+  refine ⟨?_, ?_, hb, hob⟩
+  · simp only [Program.wfB, Bool.and_eq_true] at hwf ⊢
+    refine ⟨?_, hwf.2⟩
+    show (selRule T E :: prog.rules).all Rule.wfB = true
+    simp only [List.all_cons, Bool.and_eq_true]
+    exact ⟨by simp [Rule.wfB, selRule, hb], hwf.1⟩
+  · simp only [okProg, Bool.and_eq_true] at hok ⊢
+    refine ⟨?_, hok.2⟩
+    show (selRule T E :: prog.rules).all okRule = true
+    simp only [List.all_cons, Bool.and_eq_true]
+    exact ⟨by simp [okRule, selRule, hob], hok.1⟩
+
+section unary
+variable {P : Region} {h0 : Heap} {b0 : Bytes → Option CellId}
+variable (progB : Program) (hF : P.F ≤ progB.functions.length) (hwf : progB.wfB = true)
+  (hok : okProg progB = true)
+include hF hwf hok
+
+theorem BP.ruleStep (T : SelTok) (E : Expr) (hb : (ruleBody T E).wfB = true) (hob : okS (ruleBody T E) = true)
+    (v : JVal) :
+    BP P h0 b0 KAny (Sel.ruleStep progB T E v) (fun r => P.N ≤ r.1 ∧ GoodV P r.2.1) := by
+  unfold Sel.ruleStep
+  refine BP.bind (BP.newValueJson v) (fun val hval => BP.bind (BP.newCell hval) (fun c hc => ?_))
+  refine BP.enter KSup.any hc ?_
+  exact BP.bind (BP.ruleFlow ((allBP P h0 b0 progB hF (Program.wfB_functions hwf) (okProg_functions hok)
+    evalFuel).stmt _ hb hob)) (fun fl _ => BP.pure ⟨hc, hval⟩)
+
+theorem BP.processMid (c : CellId) (hc : P.N ≤ c) (bf : List Rule) (hsub : ∀ r ∈ bf, r ∈ progB.rules) :
+    BP P h0 b0 KAny (Sel.processMid progB c bf) Tr := by
+  unfold Sel.processMid
+  refine BP.bind (BP.evalSpecialRules progB hF hwf hok KSup.any _ (fun K' => BP.pure hc) bf hsub) (fun fl _ => ?_)
+  split
+  · exact BP.pure trivial
+  · refine BP.bind (BP.setRoot (c := some c) hc) (fun _ _ => BP.bind (BP.catchExit
+      (BP.evalPatternRules progB hF hwf hok KSup.any _ (rulesOf_sub' progB _))) (fun fl2 _ => ?_))
+    split <;> exact BP.pure trivial
+
+end unary
+
+/-- one step of run B under the invariant -/
+theorem BInv.step {progB : Program} {α : Type} {m : EM α} {R : α → Prop}
+    (hm : ∀ h0, BP (P3 progB) h0 b0m KAny m R) {s : St} (h : BInv progB s) :
+    match m s with
+    | .ok a s' => BInv progB s' ∧ R a
+    | .err _ s' => BInv progB s'
+    | .oof => True := by
+  obtain ⟨h0, inv, e0, e1, e2⟩ := h
+  have := hm h0 s inv
+  unfold BPat at this
+  revert this
+  generalize m s = r
+  intro this
+  cases r with
+  | ok a s' => exact ⟨⟨h0, this.1, e0, e1, e2⟩, this.2⟩
+  | err e s' => exact ⟨h0, this.err_inv, e0, e1, e2⟩
+  | oof => trivial
+
+theorem BInv.init (progB : Program) (hok : okProg progB = true) :
+    BInv progB (newEvaluator progB Heap.empty [] 0) := by
+  obtain ⟨inv, e0, e1, e2⟩ := newEvaluator_invB progB hok
+  exact ⟨_, inv, e0, e1, e2⟩
+
+/-- a file of run B, processed to its end, leaves the invariant in place -/
+theorem processFile_invB (progB : Program) (hwf : progB.wfB = true) (hok : okProg progB = true) (src : Bytes)
+    (tbl : RuleTable) (file : InputFile) : ∀ (fuel : Nat) (data : Bytes) (sB sB' : St), BInv progB sB →
+    processFile progB src tbl [] file fuel data sB = .done sB' → BInv progB sB'
+  | 0, _, _, _, _, h => by unfold processFile at h; cases h
+  | fuel + 1, data, sB, sB', hinv, h => by
+    unfold processFile at h
+    cases hd : Json.decodeOne numOk data file.tail with
+    | eof => rw [hd] at h; cases h; exact hinv
+    | error => rw [hd] at h; cases h
+    | needMore => rw [hd] at h; cases h
+    | value v rest =>
+      rw [hd] at h
+      dsimp only at h
+      have b1 := BInv.step (fun h0 => BP.setFile (P := P3 progB) (h0 := h0) (b0 := b0m) (K := KAny) file.name) hinv
+      revert b1 h
+      generalize (do let c ← newCell (.str file.name none); setGlobal b!"$file" c : EM Unit) sB = r1
+      intro h b1
+      cases r1 with
+      | oof => cases h
+      | err e s1 => cases h
+      | ok u s1 =>
+        dsimp only at h
+        simp only [List.isEmpty_nil, ↓reduceIte] at h
+        have b2 := BInv.step (fun h0 => BP.bind (BP.newValueJson (P := P3 progB) (h0 := h0) (b0 := b0m) (K := KAny) v)
+          (fun val hval => BP.newCell hval)) b1.1
+        revert b2 h
+        generalize (do let val ← newValueJson v; newCell val : EM CellId) s1 = r2
+        intro h b2
+        cases r2 with
+        | oof => cases h
+        | err e s2 => cases h
+        | ok c s2 =>
+          dsimp only at h
+          rw [processRoots_single] at h
+          have b3 := BInv.step (fun h0 => BP.processRoot (P := P3 progB) (h0 := h0) (b0 := b0m) progB (Nat.le_refl _)
+            hwf hok KSup.any c b2.2) b2.1
+          revert b3 h
+          generalize processRoot progB c s2 = r3
+          intro h b3
+          cases r3 with
+          | oof => cases h
+          | err e s3 => cases h
+          | ok fl s3 =>
+            cases fl with
+            | exit => cases h
+            | continue_ => exact processFile_invB progB hwf hok src tbl file fuel rest s3 sB' b3.1 h
+
 section Files
 
-variable (prog : Program) (T : SelTok) (E : Expr) (hE : selX (fun _ => false) E = true) (hwfE : E.wfB = true)
+variable (prog : Program) (T : SelTok) (E : Expr) (ub : Bool) (hE : selX (fun k => ub && isB k) E = true)
+  (hwfE : E.wfB = true)
+  (hub : ub = true → prog.wfB = true ∧ okProg prog = true ∧ okE E = true ∧ isB T.dtok.text = false)
   (tbl : RuleTable) (sel : Bytes)
   (hparse : parseExpressionSrc tbl sel = .ok E) (src : Bytes) (hef : EndOK prog)
 
-include hE hwfE hparse hef in
+include hE hwfE hub hparse hef in
 theorem processFile_rel (file : InputFile) : ∀ (fuel : Nat) (data : Bytes) (sA sB : St),
-    MainRel prog (withSel prog T E) sA sB →
+    MainRel prog (withSel prog T E) sA sB → (ub = true → BInv (withSel prog T E) sB) →
     StepRel prog (withSel prog T E) sel src
       (processFile prog src tbl [sel] file fuel data sA)
       (processFile (withSel prog T E) src tbl [] file fuel data sB)
-  | 0, _, _, _, _ => by unfold processFile; exact StepRel.oofL ..
-  | fuel + 1, data, sA, sB, hrel => by
+  | 0, _, _, _, _, _ => by unfold processFile; exact StepRel.oofL ..
+  | fuel + 1, data, sA, sB, hrel, hinv => by
     obtain ⟨K, wf, h0, h0', hKA, hKB, hs, hlen⟩ := hrel
+    -- the program of run B satisfies what the invariant needs
+    have hpB : ub = true → (withSel prog T E).wfB = true ∧ okProg (withSel prog T E) = true ∧
+        (ruleBody T E).wfB = true ∧ okS (ruleBody T E) = true := fun hu =>
+      withSel_ok prog T E (hub hu).1 (hub hu).2.1 hwfE (hub hu).2.2.1 (hub hu).2.2.2
     unfold processFile
     cases hd : Json.decodeOne numOk data file.tail with
     | eof => exact ⟨K, wf, h0, h0', hKA, hKB, hs, hlen⟩
@@ -683,10 +809,16 @@ theorem processFile_rel (file : InputFile) : ∀ (fuel : Nat) (data : Bytes) (sA
       have hflB := FL.setFile file.name sB
       have eSF : (do let c ← newCell (.str file.name none); setGlobal b!"$file" c : EM Unit) = setFile file.name := rfl
       rw [eSF]
-      revert hsf hflB
+      have hinv1 : ub = true → _ := fun hu =>
+        BInv.step (fun h0 => BP.setFile (P := P3 (withSel prog T E)) (h0 := h0) (b0 := b0m) (K := KAny) file.name)
+          (hinv hu)
+      have eSF' : (do let c ← newCell (.str file.name none); setGlobal b!"$file" c : EM Unit) sB =
+        setFile file.name sB := rfl
+      rw [eSF'] at hinv1
+      revert hsf hflB hinv1
       generalize setFile file.name sA = rA1
       generalize setFile file.name sB = rB1
-      intro hsf hflB
+      intro hsf hflB hinv1
       cases rA1 with
       | oof => exact StepRel.oofL ..
       | err eA s1A =>
@@ -705,16 +837,21 @@ theorem processFile_rel (file : InputFile) : ∀ (fuel : Nat) (data : Bytes) (sA
           have hlen1 : s1B.frames.length = 1 := by rw [hflB]; exact hlen
           dsimp only
           simp only [List.isEmpty_cons, List.isEmpty_nil, Bool.false_eq_true, ↓reduceIte]
-          have hj := junction prog T E hE hwfE tbl sel hparse v wf h0 h0' hKA hKB hs1 hlen1
+          have hinv1' : ub = true → BInv (withSel prog T E) s1B := fun hu => (hinv1 hu).1
+          have hj := junction prog T E ub hE hwfE tbl sel hparse v wf h0 h0' hKA hKB hs1 hlen1
+            (fun hu => ⟨hinv1' hu, (hpB hu).1, (hpB hu).2.1, (hub hu).2.2.1⟩)
+          have hinvR : ub = true → _ := fun hu =>
+            BInv.step (fun h0 => BP.ruleStep (P := P3 (withSel prog T E)) (h0 := h0) (b0 := b0m) (withSel prog T E)
+              (Nat.le_refl _) (hpB hu).1 (hpB hu).2.1 T E (hpB hu).2.2.1 (hpB hu).2.2.2 v) (hinv1' hu)
           obtain ⟨vB, sBv, eB1, _, _⟩ := conv_ok v s1B
           have hvb := congrFun (valueB_eq prog T E v) s1B
           simp only [bind, EM.bind, eB1, Jqawk.newCell] at hvb ⊢
           simp only [evalSelectors, processRoots_single]
           rw [hvb]
-          revert hj
+          revert hj hinvR
           generalize evalSelector tbl sel v s1A = ra
           generalize ruleStep (withSel prog T E) T E v s1B = rb
-          intro hj
+          intro hj hinvR
           cases hj with
           | oofB a => exact StepRel.oofR ..
           | oofA s b => exact StepRel.oofL ..
@@ -733,10 +870,14 @@ theorem processFile_rel (file : InputFile) : ∀ (fuel : Nat) (data : Bytes) (sA
               hc (Nat.le_refl _) sA' sB' hs' (Nat.le_refl _)
             have hfl := FL.processMid (withSel prog T E) c (rulesOf prog .beginFile) sB'
             rw [hKA', hKB'] at hsim
-            revert hsim hfl
+            have hinvM : ub = true → _ := fun hu =>
+              BInv.step (fun h0 => BP.processMid (P := P3 (withSel prog T E)) (h0 := h0) (b0 := b0m)
+                (withSel prog T E) (Nat.le_refl _) (hpB hu).1 (hpB hu).2.1 c (hinvR hu).2.1 (rulesOf prog .beginFile)
+                (fun r hr => List.mem_cons_of_mem _ (rulesOf_sub' prog _ r hr))) (hinvR hu).1
+            revert hsim hfl hinvM
             generalize processMid prog r (rulesOf prog .beginFile) sA' = pa
             generalize processMid (withSel prog T E) c (rulesOf prog .beginFile) sB' = pb
-            intro hsim hfl
+            intro hsim hfl hinvM
             cases pa with
             | oof => exact StepRel.oofL ..
             | err eA s3A =>
@@ -759,10 +900,15 @@ theorem processFile_rel (file : InputFile) : ∀ (fuel : Nat) (data : Bytes) (sA
                   dsimp only
                   have hend := endfile_rel' prog (withSel prog T E) rfl hef (sA'.heap.get r) vb s3A s3B
                     ⟨K', wf', h0K, h0K', hKA', hKB', hs3, by rw [hfl]; exact hlen'⟩
-                  revert hend
+                  have hinvE : ub = true → _ := fun hu =>
+                    BInv.step (fun h0 => BP.evalSpecialRules (P := P3 (withSel prog T E)) (h0 := h0) (b0 := b0m)
+                      (withSel prog T E) (Nat.le_refl _) (hpB hu).1 (hpB hu).2.1 KSup.any (newCell vb)
+                      (fun K' => BP.newCell (hinvR hu).2.2) (rulesOf prog .endFile)
+                      (fun r hr => List.mem_cons_of_mem _ (rulesOf_sub' prog _ r hr))) (hinvM hu).1
+                  revert hend hinvE
                   generalize evalSpecialRules prog (newCell (sA'.heap.get r)) (rulesOf prog .endFile) s3A = ea
                   generalize evalSpecialRules (withSel prog T E) (newCell vb) (rulesOf prog .endFile) s3B = eb
-                  intro hend
+                  intro hend hinvE
                   cases ea with
                   | oof => exact StepRel.oofL ..
                   | err eA s4A =>
@@ -782,24 +928,29 @@ theorem processFile_rel (file : InputFile) : ∀ (fuel : Nat) (data : Bytes) (sA
                       | exit =>
                         obtain ⟨K4, _, _, _, _, _, hs4, _⟩ := hrel4
                         exact FinRel.of_SR sel src hs4 trivial
-                      | continue_ => exact processFile_rel file fuel rest s4A s4B hrel4
+                      | continue_ => exact processFile_rel file fuel rest s4A s4B hrel4 (fun hu => (hinvE hu).1)
 
-include hE hwfE hparse hef in
+include hE hwfE hub hparse hef in
 theorem processFiles_rel : ∀ (files : List InputFile) (sA sB : St), MainRel prog (withSel prog T E) sA sB →
+    (ub = true → BInv (withSel prog T E) sB) →
     StepRel prog (withSel prog T E) sel src
       (processFiles prog src tbl [sel] files sA) (processFiles (withSel prog T E) src tbl [] files sB)
-  | [], sA, sB, h => h
-  | f :: rest, sA, sB, h => by
+  | [], sA, sB, h, _ => h
+  | f :: rest, sA, sB, h, hinv => by
     unfold processFiles
-    have h1 := processFile_rel prog T E hE hwfE tbl sel hparse src hef f (f.data.length + 2) f.data sA sB h
-    revert h1
+    have h1 := processFile_rel prog T E ub hE hwfE hub tbl sel hparse src hef f (f.data.length + 2) f.data sA sB h hinv
+    have hinv2 : ub = true → ∀ sB', processFile (withSel prog T E) src tbl [] f (f.data.length + 2) f.data sB = .done sB' →
+        BInv (withSel prog T E) sB' := fun hu sB' he =>
+      have hp := withSel_ok prog T E (hub hu).1 (hub hu).2.1 hwfE (hub hu).2.2.1 (hub hu).2.2.2
+      processFile_invB (withSel prog T E) hp.1 hp.2.1 src tbl f _ _ sB sB' (hinv hu) he
+    revert h1 hinv2
     generalize processFile prog src tbl [sel] f (f.data.length + 2) f.data sA = ra
     generalize processFile (withSel prog T E) src tbl [] f (f.data.length + 2) f.data sB = rb
-    intro h1
+    intro h1 hinv2
     cases ra with
     | done sA' =>
       cases rb with
-      | done sB' => exact processFiles_rel rest sA' sB' h1
+      | done sB' => exact processFiles_rel rest sA' sB' h1 (fun hu => hinv2 hu sB' rfl)
       | finished oB sB' => cases h1; exact StepRel.oofR ..
     | finished oA sA' =>
       cases rb with
@@ -812,7 +963,7 @@ def RunRel (sel src : Bytes) (rA rB : RunResult) : Prop :=
     (OutcomeRel sel src rA.outcome rB.outcome ∧ rA.out = rB.out ∧
       (rA.outcome = .ok → rA.st.bind getRootJson = rB.st.bind getRootJson))
 
-omit hE hwfE hparse hef in
+omit hE hwfE hub hparse hef in
 theorem RunRel.finish {sel src : Bytes} {oA oB : Outcome} {sA sB : St} (h : FinRel sel src oA sA oB sB) :
     RunRel sel src (finishRun oA sA) (finishRun oB sB) := by
   rcases h with h | h | ⟨h1, h2, h3⟩
@@ -822,7 +973,7 @@ theorem RunRel.finish {sel src : Bytes} {oA oB : Outcome} {sA sB : St} (h : FinR
       show (some sA).bind getRootJson = (some sB).bind getRootJson
       simp only [Option.bind_some]; exact h3 e⟩)
 
-omit hE hwfE hparse hef in
+omit hE hwfE hub hparse hef in
 theorem special_rel (k : RuleKind) (hk : k ≠ .beginFile) {sA sB : St} (h : MainRel prog (withSel prog T E) sA sB) :
     match evalSpecialRules prog (newCell (.nil none)) (rulesOf prog k) sA,
           evalSpecialRules (withSel prog T E) (newCell (.nil none)) (rulesOf (withSel prog T E) k) sB with
@@ -860,7 +1011,7 @@ theorem special_rel (k : RuleKind) (hk : k ≠ .beginFile) {sA sB : St} (h : Mai
     | ok _ _ => exact hsim.elim
     | err eB sB' => exact ⟨hsim.2.1, K, hsim.2.2.1⟩
 
-omit hE hwfE hparse hef in
+omit hE hwfE hub hparse hef in
 theorem runEnd_rel {sA sB : St} (h : MainRel prog (withSel prog T E) sA sB) :
     RunRel sel src (runEnd prog src sA) (runEnd (withSel prog T E) src sB) := by
   unfold runEnd
@@ -886,11 +1037,12 @@ theorem runEnd_rel {sA sB : St} (h : MainRel prog (withSel prog T E) sA sB) :
       obtain ⟨rfl, K, hs⟩ := h1
       exact RunRel.finish (FinRel.of_SR sel src hs (OutcomeRel.errOutcome sel src eA))
 
-include hE hwfE hparse hef in
-theorem runFiles_rel (files : List InputFile) {sA sB : St} (h : MainRel prog (withSel prog T E) sA sB) :
+include hE hwfE hub hparse hef in
+theorem runFiles_rel (files : List InputFile) {sA sB : St} (h : MainRel prog (withSel prog T E) sA sB)
+    (hinv : ub = true → BInv (withSel prog T E) sB) :
     RunRel sel src (runFiles prog src tbl [sel] files sA) (runFiles (withSel prog T E) src tbl [] files sB) := by
   unfold runFiles
-  have h1 := processFiles_rel prog T E hE hwfE tbl sel hparse src hef files sA sB h
+  have h1 := processFiles_rel prog T E ub hE hwfE hub tbl sel hparse src hef files sA sB h hinv
   revert h1
   generalize processFiles prog src tbl [sel] files sA = ra
   generalize processFiles (withSel prog T E) src tbl [] files sB = rb
@@ -905,18 +1057,24 @@ theorem runFiles_rel (files : List InputFile) {sA sB : St} (h : MainRel prog (wi
     | done sB' => cases h1; exact .inl rfl
     | finished oB sB' => exact RunRel.finish h1
 
-include hE hwfE hparse hef in
+include hE hwfE hub hparse hef in
 /-- **`-r E` against `BEGINFILE { $ = E }`, whole runs** -/
 theorem runProgram_rel (files : List InputFile) :
     RunRel sel src (runProgram prog src tbl [sel] files)
       (runProgram (withSel prog T E) src tbl [] files) := by
   unfold runProgram
   have h1 := special_rel prog T E .begin_ (by decide) (mainRel_init prog T E)
-  revert h1
+  have hinv0 : ub = true → _ := fun hu =>
+    have hp := withSel_ok prog T E (hub hu).1 (hub hu).2.1 hwfE (hub hu).2.2.1 (hub hu).2.2.2
+    BInv.step (fun h0 => BP.evalSpecialRules (P := P3 (withSel prog T E)) (h0 := h0) (b0 := b0m)
+      (withSel prog T E) (Nat.le_refl _) hp.1 hp.2.1 KSup.any (newCell (.nil none))
+      (fun K' => BP.newCell trivial) (rulesOf (withSel prog T E) .begin_) (rulesOf_sub' _ _))
+      (BInv.init (withSel prog T E) hp.2.1)
+  revert h1 hinv0
   generalize evalSpecialRules prog (newCell (.nil none)) (rulesOf prog .begin_) (newEvaluator prog Heap.empty [] 0) = ra
   generalize evalSpecialRules (withSel prog T E) (newCell (.nil none)) (rulesOf (withSel prog T E) .begin_)
     (newEvaluator (withSel prog T E) Heap.empty [] 0) = rb
-  intro h1
+  intro h1 hinv0
   cases ra with
   | oof => exact .inl rfl
   | ok fa sA' =>
@@ -929,7 +1087,7 @@ theorem runProgram_rel (files : List InputFile) :
       | exit =>
         obtain ⟨K, _, _, _, _, _, hs, _⟩ := hrel
         exact RunRel.finish (FinRel.of_SR sel src hs trivial)
-      | continue_ => exact runFiles_rel prog T E hE hwfE tbl sel hparse src hef files hrel
+      | continue_ => exact runFiles_rel prog T E ub hE hwfE hub tbl sel hparse src hef files hrel (fun hu => (hinv0 hu).1)
   | err eA sA' =>
     cases rb with
     | oof => exact .inr (.inl rfl)
